@@ -5,13 +5,20 @@ real PDUs between a client stack and a device stack on the virtual LAN (harness/
 coq/theories/Obj.v (`run device ops` = canonical replies + canonical final `_values`).
 Direct: the implementation-only predicate of the property statement (weakest reading)."""
 import copy, logging
-from core import Case
+from core import Case, nlist
 from pyerr import exc_code
+import os, sys
 import vnet, valgen
+sys.path.insert(0, os.path.join(os.path.dirname(os.path.dirname(os.path.dirname(os.path.abspath(__file__)))), 'translator'))
+import gen_objtables as G
+from gen_objtables import (KEEP, ERRNAME, DEV_PIDS, code, cid, classes, atom_code, abs_elem, sdt_of, proto_of, dt_of,
+                           q_opt, q_elem, q_sdt, q_dt, q_bool, pid_num, _CODES, _CIDS)
 
 PROP = 'C15'
-COQ_TARGETS = ['theories/ObjFacts.vo', 'theories/ObjRw.vo', 'theories/ObjRpm.vo']
-COQ_IMPORTS = 'From Bac Require Import Base Obj.\nFrom BacGen Require Import ObjTables.'
+COQ_TARGETS = ['theories/ObjFacts.vo', 'theories/ObjRw.vo', 'theories/ObjRpm.vo', 'gen/ObjTables.vo', 'theories/ObjTablesFacts.vo', 'gen/Schemas.vo', 'theories/ObjCodec.vo']
+TABLE_OBLIGATIONS = ['all_tables_ok']
+COQ_IMPORTS = ('From Bac Require Import Base Tag Schema Codec Obj ObjCodec.\nFrom BacGen Require Import Schemas ObjTables.\n'
+               'Import Obj.')
 RULE = ('histories: a device with 2-3 objects drawn from the 63 registered object types (the registered class itself, or a '
         'subclass re-declaring every property mutable), about half of the properties initialised with values generated from '
         'their datatype, plus the local device object restricted to its plain properties; 8-12 requests each: ReadProperty, '
@@ -19,43 +26,52 @@ RULE = ('histories: a device with 2-3 objects drawn from the 63 registered objec
         'foreign constructed value, wrong element type, wrong fixed length), ReadPropertyMultiple (specific references, '
         'all/required/optional, unknown objects), array index classes none/0/1..n/n+1/huge, priorities none/1..16, unknown '
         'objects and properties, wildcard device id.  One correspondence case = one history (replies of every request + final '
-        '_values of every object).  non-trivial = the history has at least one acknowledged write and one refused request; '
+        '_values of every object), plus two fixed scenarios (array of bit strings; index 0 of arrays of strings/enumerations through RPM).  '
+        'direct only: 120 (quick) histories on the commandable *CmdObject classes of local/object.py: commands and relinquishes at '
+        'priorities none/1..16, wrong-typed commands, each followed by reads of presentValue, priorityArray (whole, [0], [p], [17]) and '
+        'relinquishDefault against a priority-array oracle.  non-trivial = the history has at least one acknowledged write and one refused request; '
         'distinct by (device, request list).')
 TRUSTED = ['model coq/theories/Obj.v written by hand after object.py Property.ReadProperty/WriteProperty, service/object.py, '
            'constructeddata.py ArrayOf/Any.cast_out, app.py Application.indication; tie = correspondence',
-           'decoding of Sequence/Choice values (Any.cast_out of a constructed class) is not modelled in Obj.v: its outcome on the '
-           'request tag list is computed by the harness with a stand-alone cast_out call and given to the model (fields w_one/w_many)',
-           'values are abstracted to (application tag, code) / (class, code) by interning their encoded tags (harness table)']
+           'decoding of Sequence/Choice values (Any.cast_out of a constructed class) is not in Obj.v: the fields w_one/w_many of an '
+           'abstract request are computed inside Coq by Bac.ObjCodec (codec_one/codec_many = the C03 model Codec.decode/encode over '
+           'the class schema of gen/Schemas.v, applied to the concrete request tags); only for a class without a schema there '
+           '(about 1 % of the casts, counted as history+implementation-cast) is the outcome taken from a stand-alone cast_out call',
+           'atomic values are abstracted to (application tag, code) by interning their encoded tag (harness table, Unsigned = the number); '
+           'constructed values to (class id, digest of the tags they encode to)']
 ASSUMPTIONS = ['no property monitors / COV services are attached (Property.WriteProperty monitor calls not modelled)',
                'array-valued properties hold ArrayOf instances and objects do not share value instances (no class-level defaults)',
                'application tags in requests are well formed (lengths valid for their kind)',
                'property classes overriding ReadProperty/WriteProperty (local device object, ObjectIdentifierProperty with a foreign '
-               'object type, commandable objects of local/object.py) are outside the model; priority is ignored by Property.WriteProperty']
+               'object type, commandable objects of local/object.py) are outside the Coq model; commandable objects are covered by the direct '
+               'predicate only (priority-array oracle); plain Property.WriteProperty ignores priority']
 
-KEEP = ('objectIdentifier', 'objectName', 'objectType', 'propertyList')
-ERRNAME = {1: 'DecodingError', 2: 'InvalidTag', 3: 'MissingRequired', 4: 'InvalidParameterDatatype', 5: 'TooManyArguments',
-           6: 'EncodingError', 7: 'ValueErr', 8: 'TypeErr', 9: 'KeyErr', 10: 'IndexErr', 11: 'AttrErr', 12: 'StructErr',
-           13: 'OverflowErr', 14: 'NameErr', 15: 'RuntimeErr', 16: 'UnicodeErr', 17: 'OutOfFuel', 18: 'OtherErr',
-           100: '(RejectExc 0)', 200: '(AbortExc 0)'}
-
-_CODES, _CIDS, _MUT = {}, {}, {}
 _ENV = {}
+_TABLES = {}
+TABLE_TEXT_DIFFERS = []
 
 
-def code(key):
-    return _CODES.setdefault(key, len(_CODES) + 1)
-
-
-def cid(cls):
-    return _CIDS.setdefault(cls, len(_CIDS) + 1)
+def tables():
+    """class -> table name of coq/gen/ObjTables.v.  The generator (translator/gen_objtables.py, run by the translator in a
+    subprocess) is run here in-process, first thing, so that class ids and prototype codes are the generated file's; the two
+    texts must be equal (else the correspondence is reported as broken)."""
+    if not _TABLES:
+        text, names = G.build()
+        _TABLES.update(names)
+        import core
+        path = os.path.join(core.COQ, 'gen', 'ObjTables.v')
+        old = open(path).read() if os.path.exists(path) else None
+        if old != text:
+            TABLE_TEXT_DIFFERS.append('coq/gen/ObjTables.v differs from what the imported classes give')
+    return _TABLES
 
 
 def B():
     """lazy import of the implementation names used here"""
-    if 'P' not in _ENV:
-        from bacpypes import primitivedata as P, constructeddata as C, object as O, apdu as A, basetypes as T
+    if 'services' not in _ENV:
+        _ENV.update(G.env())
         from bacpypes.service.object import ReadWritePropertyServices, ReadWritePropertyMultipleServices
-        _ENV.update(P=P, C=C, O=O, A=A, T=T, services=[ReadWritePropertyServices, ReadWritePropertyMultipleServices])
+        _ENV.update(services=[ReadWritePropertyServices, ReadWritePropertyMultipleServices])
         logging.getLogger('bacpypes').setLevel(logging.CRITICAL + 10)
         for name in list(logging.root.manager.loggerDict):
             if name.startswith('bacpypes'):
@@ -65,107 +81,7 @@ def B():
     return _ENV
 
 
-def classes():
-    """{object type: (registered class, all-mutable subclass)}"""
-    O = B()['O']
-    if not _MUT:
-        for (otype, vid), cls in sorted(O.registered_object_types.items(), key=lambda kv: str(kv[0])):
-            if vid != 0:
-                continue
-            props = [O.Property(p.identifier, p.datatype, None, optional=p.optional, mutable=True)
-                     for pid, p in cls._properties.items() if pid not in KEEP]
-            M = type('Mut' + cls.__name__, (cls,), {'properties': props})
-            O.register_object_type(M, vendor_id=998)
-            _MUT[otype] = (cls, M)
-    return _MUT
-
-
-_TABLES = {}
-DEV_PIDS = ['objectName', 'vendorIdentifier', 'maxApduLengthAccepted', 'segmentationSupported', 'apduTimeout',
-            'numberOfApduRetries', 'vendorName', 'description', 'location', 'databaseRevision']
-
-
-def tables():
-    """coq/gen/ObjTables.v: the property descriptor list of every registered object class (as registered, and the
-    all-mutable subclass used by the harness) read from the imported classes; (re)compiled when its text changes.
-    Called before anything else is interned so that class ids and prototype codes are the same in every process."""
-    if _TABLES:
-        return _TABLES
-    import os, core
-    from bacpypes.local.device import LocalDeviceObject
-    assert not _CODES and not _CIDS
-    e = _ENV
-    P, C = e['P'], e['C']
-    cl = classes()
-    allcls = set()
-    for otype in sorted(cl):
-        for p in cl[otype][0]._properties.values():
-            for d in (p.datatype, getattr(p.datatype, 'subtype', None)):
-                if d is not None and isinstance(d, type) and issubclass(d, (C.Sequence, C.Choice)):
-                    allcls.add(d)
-    for k in sorted(allcls, key=lambda k: (k.__module__, k.__name__)):
-        cid(k)
-    lines = ['(* GENERATED by harness/props/c15.py tables() from the imported bacpypes.object classes — do not edit *)',
-             'From Bac Require Import Base Obj.', 'Open Scope Z_scope.', '']
-
-    def q_table(props):
-        return '[' + ';\n  '.join('mkP %d %s %s %s' % (pid_num(p.identifier), q_dt(dt_of(p.datatype)), q_bool(p.optional), q_bool(p.mutable))
-                                   for p in props) + ']'
-    for otype in sorted(cl):
-        for tag, K in zip('om', cl[otype]):
-            name = 'T_%s_%s' % (otype.replace('-', '_'), tag)
-            lines.append('Definition %s : list pdesc :=\n  %s.' % (name, q_table(list(K._properties.values()))))
-            _TABLES[K] = name
-    lines.append('Definition T_localdev : list pdesc :=\n  %s.' % q_table([LocalDeviceObject._properties[pid] for pid in DEV_PIDS]))
-    text = '\n'.join(lines) + '\n'
-    gen = os.path.join(core.COQ, 'gen')
-    os.makedirs(gen, exist_ok=True)
-    path = os.path.join(gen, 'ObjTables.v')
-    with core.BuildLock():
-        old = open(path).read() if os.path.exists(path) else None
-        vo = path + 'o'
-        objvo = os.path.join(core.COQ, 'theories', 'Obj.vo')
-        stale = old != text or not os.path.exists(vo) or (os.path.exists(objvo) and os.path.getmtime(objvo) > os.path.getmtime(vo))
-        if old != text:
-            open(path, 'w').write(text)
-        if stale and os.path.exists(objvo):
-            rc, out = core.run(['coqc'] + core.QFLAGS + ['gen/ObjTables.v'], cwd=core.COQ, timeout=1200)
-            if rc != 0:
-                raise RuntimeError('gen/ObjTables.v does not compile: ' + out[-1500:])
-    return _TABLES
-
-
 # ------------------------------------------------------------------ abstraction
-def atom_code(t):
-    if t.tagNumber == 2:
-        return int.from_bytes(bytes(t.tagData), 'big')
-    return code(('t', t.tagNumber, t.tagLVT, bytes(t.tagData)))
-
-
-def abs_elem(scls, v):
-    """abstract element: ('a',k,c) | ('o',k,c) | ('c',cid,c) | ('b',cid,err) | ('x',)"""
-    e = B()
-    P, C = e['P'], e['C']
-    if issubclass(scls, C.AnyAtomic):
-        if isinstance(v, P.Atomic) and not isinstance(v, C.AnyAtomic):
-            t = P.Tag(); v.encode(t)
-            return ('o', t.tagNumber, atom_code(t))
-        return ('x',)
-    if issubclass(scls, P.Atomic):
-        try:
-            t = P.Tag(); scls(v).encode(t)
-        except Exception:
-            return ('x',)
-        return ('a', t.tagNumber, atom_code(t))
-    if not isinstance(v, scls):
-        return ('x',)
-    try:
-        tl = P.TagList(); v.encode(tl)
-    except Exception as ex:
-        return ('b', cid(scls), exc_code(ex))
-    return ('c', cid(scls), code((scls.__name__, tuple(valgen.canon_tags(tl.tagList)))))
-
-
 def abs_val(dt, v):
     C = B()['C']
     if v is None:
@@ -187,55 +103,6 @@ def abs_val(dt, v):
     return ('s', abs_elem(dt, v))
 
 
-def sdt_of(cls):
-    e = B()
-    P, C = e['P'], e['C']
-    if issubclass(cls, C.AnyAtomic):
-        return ('any',)
-    if issubclass(cls, P.Atomic):
-        if issubclass(cls, P.Unsigned):
-            return ('atom', 2, cls._low_limit, cls._high_limit)
-        return ('atom', cls._app_tag, 0, None)
-    assert issubclass(cls, (C.Sequence, C.Choice)), cls
-    return ('cons', cid(cls))
-
-
-def proto_of(dt):
-    """what ArrayOf.fix_length appends"""
-    P = B()['P']
-    if issubclass(dt.subtype, P.Atomic):
-        v = dt.subtype().value if dt.prototype is None else dt.prototype
-    else:
-        v = dt.subtype() if dt.prototype is None else copy.deepcopy(dt.prototype)
-    return abs_elem(dt.subtype, v)
-
-
-def dt_of(dt):
-    C = B()['C']
-    if issubclass(dt, C.Array):
-        s = sdt_of(dt.subtype)
-        assert s[0] != 'any'
-        return ('array', s, dt.fixed_length, proto_of(dt))
-    if issubclass(dt, C.List):
-        s = sdt_of(dt.subtype)
-        assert s[0] != 'any'
-        return ('list', s)
-    return ('s', sdt_of(dt))
-
-
-# ---- Coq text
-def q_opt(x):
-    return 'None' if x is None else '(Some %d)' % x
-
-
-def q_elem(e):
-    if e[0] == 'a': return '(EAtom %d %d)' % (e[1], e[2])
-    if e[0] == 'o': return '(EObj %d %d)' % (e[1], e[2])
-    if e[0] == 'c': return '(ECons %d %d)' % (e[1], e[2])
-    if e[0] == 'b': return '(EBad %d %s)' % (e[1], ERRNAME[e[2]])
-    return '(EBad 0 OutOfFuel)'       # never produced by the model's own steps: forces a disagreement
-
-
 def q_elems(l):
     return '[' + ';'.join(q_elem(e) for e in l) + ']'
 
@@ -247,22 +114,6 @@ def q_val(v):
     if v[0] == 'arr': return '(VArr %d %s)' % (v[1], q_elems(v[2]))
     if v[0] == 'lst': return '(VLst %s)' % q_elems(v[1])
     return '(VS (EBad 0 OutOfFuel))'
-
-
-def q_sdt(s):
-    if s[0] == 'any': return 'SAny'
-    if s[0] == 'atom': return '(SAtom %d %d %s)' % (s[1], s[2], q_opt(s[3]))
-    return '(SCons %d)' % s[1]
-
-
-def q_dt(d):
-    if d[0] == 's': return '(DS %s)' % q_sdt(d[1])
-    if d[0] == 'list': return '(DList %s)' % q_sdt(d[1])
-    return '(DArray %s %s %s)' % (q_sdt(d[1]), q_opt(d[2]), q_elem(d[3]))
-
-
-def q_bool(b):
-    return 'true' if b else 'false'
 
 
 def q_res(r, f):
@@ -299,11 +150,6 @@ def elem_items(e):
     if e[0] in ('a', 'o'): return [[0, e[1], e[2]]]
     if e[0] == 'c': return [[1, e[1], e[2]]]
     return None
-
-
-def pid_num(name):
-    T = B()['T']
-    return T.PropertyIdentifier.enumerations[name] if isinstance(name, str) else int(name)
 
 
 def oid_num(oid):
@@ -612,6 +458,7 @@ def abs_wire(any_, obj, pid):
         else:
             tags.append('WOther')
     one = many = ('err', 18)
+    qone = qmany = None
     prop = obj._properties.get(pid) if obj is not None else None
     if prop is not None:
         dt = prop.datatype
@@ -619,18 +466,75 @@ def abs_wire(any_, obj, pid):
         if issubclass(dt, (C.Array, C.List)):
             if not issubclass(dt.subtype, P.Atomic):
                 X = dt.subtype
+        elif not issubclass(dt, (P.Atomic, C.AnyAtomic)):
+            X = dt
+        if X is not None and schema_name(X) is not None:
+            # the C03 model decides (Bac.ObjCodec): concrete tags of the request + the class's schema
+            ctags = '[' + ';'.join('(mkTag %d %d %d %s)' % (t.tagClass, t.tagNumber, t.tagLVT, nlist(bytes(t.tagData)))
+                                   for t in any_.tagList.tagList) + ']'
+            # hints: identity of the stored value(s) as the implementation re-encodes them; used by the model only when the
+            # request spells an accepted value non-canonically (see ObjCodec.v)
+            def recoded(vals):
+                tl = P.TagList()
+                for v in vals:
+                    v.encode(tl)
+                return valgen.canon_tags(tl.tagList)
+            sent = valgen.canon_tags(any_.tagList.tagList)
+            hint = -1
+            try:
+                v1 = any_.cast_out(X)
+                if recoded([v1]) != sent:
+                    el = abs_elem(X, v1)
+                    hint = el[2] if el[0] == 'c' else 0
+                    ORACLE['non-canonical'] += 1
+            except Exception:
+                pass
+            qone = '(codec_one %d %s %s (%d))' % (cid(X), schema_name(X), ctags, hint)
+            if X is not dt:
+                isarr = issubclass(dt, C.Array)
+                fx = '(Some %d%%N)' % dt.fixed_length if (isarr and dt.fixed_length is not None) else 'None'
+                hints = []
+                try:
+                    vs = any_.cast_out(dt)
+                    if vs and recoded(vs) != sent:
+                        hints = [(lambda el: el[2] if el[0] == 'c' else 0)(abs_elem(X, v)) for v in vs]
+                        ORACLE['non-canonical'] += 1
+                except Exception:
+                    pass
+                qmany = '(codec_many %d %s %s %s %s [%s])' % (cid(X), schema_name(X), q_bool(isarr), fx, ctags, ';'.join(str(h) for h in hints))
+            ORACLE['codec'] += 1
+        elif X is not None:
+            # class without a schema in gen/Schemas.v: outcome supplied from a stand-alone cast_out call
+            ORACLE['implementation'] += 1
+            if X is not dt:
                 try:
                     many = ('ok', [abs_elem(X, v) for v in any_.cast_out(dt)])
                 except Exception as ex:
                     many = ('err', exc_code(ex))
-        elif not issubclass(dt, (P.Atomic, C.AnyAtomic)):
-            X = dt
-        if X is not None:
             try:
                 one = ('ok', abs_elem(X, any_.cast_out(X)))
             except Exception as ex:
                 one = ('err', exc_code(ex))
-    return '(mkW [%s] %s %s)' % (';'.join(tags), q_res(one, q_elem), q_res(many, q_elems))
+    return '(mkW [%s] %s %s)' % (';'.join(tags), qone or q_res(one, q_elem), qmany or q_res(many, q_elems))
+
+
+ORACLE = {'codec': 0, 'implementation': 0, 'non-canonical': 0}
+_SCHEMAS = {}
+
+
+def schema_name(X):
+    """T_<Class> if gen/Schemas.v (property C03) has a schema for the class, else None"""
+    if not _SCHEMAS:
+        import core, re
+        try:
+            txt = open(os.path.join(core.COQ, 'gen', 'Schemas.v')).read()
+        except OSError:
+            txt = ''
+        _SCHEMAS['names'] = set(re.findall(r'^Definition (T_\w+) : ty', txt, flags=re.M))
+    if X.__module__ not in ('bacpypes.basetypes', 'bacpypes.apdu'):
+        return None
+    n = 'T_' + X.__name__
+    return n if n in _SCHEMAS['names'] else None
 
 
 def c_value_items(bench, oid, pid, idx, any_):
@@ -821,6 +725,7 @@ def history_case(rng, nops=None, scenario=None):
         scenario[0](bn)
         script = scenario[1](bn)
     qdev = bn.q_device()
+    oracle0 = dict(ORACLE)
     qops, expected, descs = [], [], []
     acks = refusals = 0
     for _ in range(nops or rng.randint(10, 14)):
@@ -843,15 +748,22 @@ def history_case(rng, nops=None, scenario=None):
     expected += [-7, digest(full)]
     coq = 'run %s\n [%s]' % (qdev, ';\n  '.join(qops))
     types = [o.objectIdentifier[0] for o in bn.objects]
-    return Case('history', coq, expected, key=coq, nontrivial=(acks >= 1 and refusals >= 1),
+    kind = ('history+implementation-cast' if ORACLE['implementation'] > oracle0['implementation'] else
+            'history+codec-cast' if ORACLE['codec'] > oracle0['codec'] else 'history')
+    if scenario is not None:
+        kind = 'scenario'
+    return Case(kind, coq, expected, key=coq, nontrivial=(acks >= 1 and refusals >= 1),
                 desc={'objects': types, 'ops': descs})
 
 
 def cases(rng, tier):
     B(); classes()
+    if TABLE_TEXT_DIFFERS:
+        raise RuntimeError(TABLE_TEXT_DIFFERS[0])
     n = 2400 if tier == 'thorough' else 400
-    out = [history_case(rng, nops=20, scenario=(bitstring_array_scenario, bitstring_array_ops))]
-    out += [history_case(rng) for _ in range(n - 1)]
+    out = [history_case(rng, nops=20, scenario=(bitstring_array_scenario, bitstring_array_ops)),
+           history_case(rng, nops=60, scenario=(rpm_index0_setup, rpm_index0_ops))]
+    out += [history_case(rng) for _ in range(n - 2)]
     bench().clear()
     return out
 
@@ -1210,6 +1122,246 @@ def bitstring_array_direct(failures, stats):
     bn.clear()
 
 
+# ---- commandable objects (local/object.py *CmdObject): priorities 1..16 against an independent priority-array oracle
+CMD_CLASSES = ['AnalogValueCmdObject', 'AnalogOutputCmdObject', 'BinaryValueCmdObject', 'MultiStateValueCmdObject',
+               'CharacterStringValueCmdObject', 'IntegerValueCmdObject', 'LargeAnalogValueCmdObject', 'PositiveIntegerValueCmdObject',
+               'OctetStringValueCmdObject', 'BitStringValueCmdObject', 'DateValueCmdObject', 'TimeValueCmdObject',
+               'LightingOutputCmdObject', 'MultiStateOutputCmdObject']
+_CMD = {}
+
+
+def cmd_classes():
+    if not _CMD:
+        O = B()['O']
+        from bacpypes.local import object as L
+        for name in CMD_CLASSES:
+            K = getattr(L, name)
+            O.register_object_type(K, vendor_id=997)
+            _CMD[name] = K
+    return _CMD
+
+
+def tags_of_any(a):
+    return [tuple(t) for t in valgen.canon_tags(a.tagList.tagList)]
+
+
+def run_cmd_history(hs, failures, stats, verbose=False):
+    """one commandable object; commands / relinquishes at priorities 1..16 (and none = 16) over the wire; after every
+    request presentValue, priorityArray (whole, [0], one slot) are read back and compared with the oracle:
+    slot[p] = last value commanded at p or Null; presentValue = first non-Null slot, else relinquishDefault"""
+    import random
+    e = B()
+    P, C, A = e['P'], e['C'], e['A']
+    hr = random.Random(hs)
+    bn = bench()
+    bn.clear()
+    name = hr.choice(CMD_CLASSES)
+    K = cmd_classes()[name]
+    pvprop = K._properties['presentValue']
+    dt = pvprop.datatype
+
+    def gen_value():
+        v = valgen.gen_atomic(dt, hr)
+        if issubclass(dt, P.Unsigned) and name.startswith('MultiState'):
+            v = hr.randint(1, 5)
+        return v
+
+    def enc(v):
+        return tags_of_any(make_any([dt(v)]))
+    rd = gen_value()
+    kw = {}
+    if name.startswith('MultiState'):
+        kw['numberOfStates'] = 5
+    obj = K(objectIdentifier=(K.objectType, 20), objectName='cmd-20', relinquishDefault=rd, presentValue=rd, **kw)
+    bn.add(obj)
+    oid = obj.objectIdentifier
+    NULL = [(0, 0, 0, '')]
+    slots = [None] * 17            # tags of the commanded value, per priority
+    rd_tags = enc(rd)
+    k = -1
+
+    def fail(kind, **kw2):
+        f = {'kind': kind, 'cmd_history_seed': hs, 'class': name, 'op_index': k}
+        f.update(kw2)
+        failures.append(f)
+
+    def read_tags(pid, idx=None):
+        req = A.ReadPropertyRequest(objectIdentifier=oid, propertyIdentifier=pid)
+        if idx is not None:
+            req.propertyArrayIndex = idx
+        io, _ = bn.exchange(req)
+        stats['evaluations'] += 1
+        r = io.ioResponse
+        if isinstance(r, A.ReadPropertyACK):
+            return tags_of_any(r.propertyValue)
+        return ('refused', c_reply(bn, io)[:3])
+
+    def verify(after):
+        want_pv = next((slots[p] for p in range(1, 17) if slots[p] is not None), rd_tags)
+        got = read_tags('presentValue')
+        if got != want_pv:
+            fail('commandable-present-value-wrong', after=after, got=str(got)[:120], want=str(want_pv)[:120],
+                 slots={p: str(slots[p]) for p in range(1, 17) if slots[p] is not None})
+            return False
+        whole = read_tags('priorityArray')
+        want = []
+        for p in range(1, 17):
+            want += slots[p] if slots[p] is not None else NULL
+        if whole != want:
+            fail('commandable-priority-array-wrong', after=after, got=str(whole)[:300], want=str(want)[:300])
+            return False
+        p = hr.randint(1, 16)
+        one = read_tags('priorityArray', p)
+        if one != (slots[p] if slots[p] is not None else NULL):
+            fail('commandable-priority-slot-wrong', after=after, slot=p, got=str(one)[:120])
+            return False
+        if read_tags('priorityArray', 0) != [(0, 2, 1, '10')]:
+            fail('commandable-priority-array-length-wrong', after=after)
+            return False
+        r17 = read_tags('priorityArray', 17)
+        if r17 != ('refused', [2, 2, 42]):
+            fail('bad-index-wrong-reply', after=after, got=str(r17))
+            return False
+        if read_tags('relinquishDefault') != rd_tags:
+            fail('commandable-relinquish-default-changed', after=after)
+            return False
+        return True
+    if not verify('construction'):
+        bn.clear()
+        return
+    for k in range(hr.randint(10, 16)):
+        r = hr.random()
+        prio = hr.choice([None, 1, 2, 5, 8, 8, 12, 15, 16, hr.randint(1, 16)])
+        p = 16 if prio is None else prio
+        if r < 0.55:
+            v = gen_value()
+            a, what, newslot = make_any([dt(v)]), 'command', enc(v)
+        elif r < 0.85:
+            a, what, newslot = make_any([P.Null()]), 'relinquish', None
+        else:
+            kinds = [i for i in range(1, 13) if i != dt._app_tag and not (dt._app_tag in (2, 9) and i in (2, 9) and False)]
+            a, what, newslot = make_any([atom_samples()[hr.choice(kinds)](hr)]), 'wrong-type', 'refuse'
+        req = A.WritePropertyRequest(objectIdentifier=oid, propertyIdentifier='presentValue')
+        req.propertyValue = a
+        if prio is not None:
+            req.priority = prio
+        before = snap(bn)
+        io, _ = bn.exchange(req)
+        rep = c_reply(bn, io)
+        stats['evaluations'] += 1
+        stats['cmd_requests'] = stats.get('cmd_requests', 0) + 1
+        d = {'what': what, 'priority': prio, 'tags': str(tags_of_any(a)), 'reply': rep[:3]}
+        if verbose:
+            print(k, d)
+        if rep == [0]:
+            if newslot == 'refuse':
+                fail('wrong-datatype-accepted', op=d)
+                break
+            slots[p] = newslot
+            stats['acked'] += 1
+        else:
+            if rep[0] not in (2, 3, 4):
+                fail('no-or-unknown-reply', op=d)
+                break
+            if snap(bn) != before:
+                fail('refused-write-changed-state', op=d)
+                break
+        if not verify(d):
+            break
+    bn.clear()
+
+
+def rpm_index0_scenario(bn):
+    """objects with arrays whose elements are character strings, enumerations (propertyList), unsigned; -> the specs"""
+    e = B()
+    P, C, A = e['P'], e['C'], e['A']
+    bn.clear()
+    cls, M = classes()['multiStateValue']
+    st = M._properties['stateText'].datatype
+    av = M._properties['alarmValues'].datatype
+    o1 = M(objectIdentifier=('multiStateValue', 10), objectName='msv-10', stateText=st(['off', 'low', 'high']),
+           alarmValues=av([2, 3]), presentValue=1, numberOfStates=3)
+    cls2, M2 = classes()['structuredView']
+    sub = M2._properties['subordinateList'].datatype
+    ann = M2._properties['subordinateAnnotations'].datatype
+    o2 = M2(objectIdentifier=('structuredView', 11), objectName='sv-11',
+            subordinateAnnotations=ann(['a', 'bb']))
+    cls3, M3 = classes()['notificationClass']
+    pr = M3._properties['priority'].datatype
+    pl = M3._properties['propertyList'].datatype
+    o3 = M3(objectIdentifier=('notificationClass', 12), objectName='nc-12', priority=pr([1, 2, 3]),
+            propertyList=pl(['presentValue', 'units', 'priority']))
+    for o in (o1, o2, o3):
+        bn.add(o)
+    specs = [(o1.objectIdentifier, [('stateText', 0), ('stateText', 2), ('alarmValues', 0), ('stateText', None), ('stateText', 4)]),
+             (o2.objectIdentifier, [('subordinateAnnotations', 0), ('subordinateAnnotations', 1)]),
+             (o3.objectIdentifier, [('priority', 0), ('priority', 3), ('all', 0)]),
+             (o3.objectIdentifier, [('propertyList', 0), ('propertyList', 2), ('propertyList', None)]),
+             (o1.objectIdentifier, [('alarmValues', 0), ('alarmValues', 1)]),
+             (('device', 4194303), [('objectName', None)])]
+    return specs
+
+
+def rpm_index0_ops(bn):
+    A = B()['A']
+    for oid, refs in bn._scenario_specs:
+        specs = [(oid, refs)]
+        req = A.ReadPropertyMultipleRequest(listOfReadAccessSpecs=[
+            A.ReadAccessSpecification(objectIdentifier=o, listOfPropertyReferences=[
+                A.PropertyReference(propertyIdentifier=p, propertyArrayIndex=i) for p, i in rr]) for o, rr in specs])
+        yield req, '(ORpm %s)' % q_refs(specs), {'op': 'rpm', 'specs': [[list(o), [list(x) for x in rr]] for o, rr in specs]}
+        for pid, idx in refs:
+            if pid in ('all', 'required', 'optional'):
+                continue
+            req = A.ReadPropertyRequest(objectIdentifier=oid, propertyIdentifier=pid)
+            if idx is not None:
+                req.propertyArrayIndex = idx
+            yield req, '(ORead %d %d %s)' % (oid_num(oid), pid_num(pid), q_opt(idx)), {'op': 'read', 'oid': list(oid), 'pid': pid, 'idx': idx}
+
+
+def rpm_index0_setup(bn):
+    bn._scenario_specs = rpm_index0_scenario(bn)
+
+
+def rpm_index0_direct(failures, stats):
+    """index 0 (and the other index classes) of arrays whose elements are not Unsigned, through ReadPropertyMultiple and
+    ReadProperty"""
+    bn = bench()
+    specs = rpm_index0_scenario(bn)
+    for group in [specs] + [[x] for x in specs]:
+        rpm_index0_one(bn, group, failures, stats)
+    bn.clear()
+
+
+def rpm_index0_one(bn, specs, failures, stats):
+    e = B()
+    P, C, A = e['P'], e['C'], e['A']
+    req = A.ReadPropertyMultipleRequest(listOfReadAccessSpecs=[
+        A.ReadAccessSpecification(objectIdentifier=o, listOfPropertyReferences=[
+            A.PropertyReference(propertyIdentifier=p, propertyArrayIndex=i) for p, i in refs]) for o, refs in specs])
+    d = {'op': 'rpm', 'specs': [[list(o), [list(x) for x in refs]] for o, refs in specs]}
+    io, _ = bn.exchange(req)
+    rep = c_reply(bn, io)
+    stats['evaluations'] += 1
+    d['reply'] = rep[:60]
+
+    def fail(kind, d=d, **kw):
+        failures.append(dict({'kind': kind, 'scenario': 'rpm-index-0', 'op': d}, **kw))
+    check_rpm(bn, d, rep, fail)
+    # and the raw tags: index 0 must be one application Unsigned tag carrying the length
+    r = io.ioResponse
+    if isinstance(r, A.ReadPropertyMultipleACK):
+        for rar in r.listOfReadAccessResults:
+            for el in rar.listOfResults:
+                if el.propertyArrayIndex == 0 and el.readResult.propertyValue is not None:
+                    tags = valgen.canon_tags(el.readResult.propertyValue.tagList.tagList)
+                    obj = bn.find(rar.objectIdentifier)
+                    v = obj._values.get(el.propertyIdentifier) if obj is not None else None
+                    if isinstance(v, C.Array) and (len(tags) != 1 or tags[0][0] != 0 or tags[0][1] != 2
+                                                   or int(tags[0][3], 16) != len(v.value) - 1):
+                        fail('rpm-index-0-not-the-length', prop=el.propertyIdentifier, tags=str(tags))
+
+
 def direct(rng, tier, focus=()):
     import collections
     B(); classes()
@@ -1222,6 +1374,11 @@ def direct(rng, tier, focus=()):
         stats['histories'] += 1
     canonical_known(failures, stats)
     bitstring_array_direct(failures, stats)
+    rpm_index0_direct(failures, stats)
+    cseeds = [rng.getrandbits(48) for _ in range(600 if tier == 'thorough' else 120)]
+    for hs in cseeds:
+        run_cmd_history(hs, failures, stats)
+        stats['cmd_histories'] = stats.get('cmd_histories', 0) + 1
     stats['replies'] = dict(stats['replies'])
     stats['distinct_nontrivial'] = stats['acked']
     stats['samples'] = [{'direct': 'history', 'seed': seeds[0]}]
@@ -1237,6 +1394,13 @@ def classify(failure):
 def replay(payload):
     B(); classes()
     f = payload.get('failure')
+    if f and 'cmd_history_seed' in f:
+        failures, stats = [], {'evaluations': 0, 'acked': 0, 'replies': __import__('collections').Counter(), 'histories': 0}
+        run_cmd_history(f['cmd_history_seed'], failures, stats, verbose=True)
+        print('failures re-observed:')
+        for x in failures:
+            print(' ', x)
+        return
     if f and 'history_seed' in f:
         failures, stats = [], {'evaluations': 0, 'acked': 0, 'replies': __import__('collections').Counter(), 'histories': 0}
         run_direct_history(f['history_seed'], failures, stats, verbose=True)
